@@ -174,6 +174,10 @@ AttestNext ==
 ClaimEvents(c) ==
     {[t |-> "ToHub", n |-> n, tok |-> "t1", amt |-> amt, snd |-> "e7", rcv |-> "a3", eh |-> 5, txh |-> "x1"] : n \in 1..2, amt \in {5, 6}}
     \cup {[t |-> "ToHub", n |-> n, tok |-> "t1", amt |-> 5, snd |-> "e7", rcv |-> "a2", eh |-> 5, txh |-> "x1"] : n \in 1..2}     \* same deposit, another receiver
+    \* a signer-set update reported with the same members and two different powers of the first member (the order is unchanged)
+    \* (simulation only: the exhaustive configuration keeps the smaller alphabet)
+    \cup (IF TwoLevel THEN {[t |-> "SSExec", n |-> 1, ssn |-> 1, eh |-> 5, m |-> <<<<"e1", <<p, 0>>>>, <<"e2", <<100, 0>>>>>>, txh |-> "x1"] : p \in {200, 300}}
+          ELSE {})
 ClaimOne ==
     /\ hub.inb
     /\ \E by \in Vals \cup {"a1"}, ev \in ClaimEvents("ethereum") :
